@@ -500,15 +500,16 @@ def viAssign (v : Visitor) (a : Ast) : M Unit :=
 /-- `typeDeductionDepth` -/
 def typeDeductionDepth : Nat := 5
 
-/-- the retry loop of `ViRecursion`; returns the final `iterationValue` -/
-def recursionRounds (v : Visitor) (a : Ast) (idx : Nat) : Nat → Ty → M Ty
-  | 0, it => M.pure it
+/-- the retry loop of `ViRecursion`; returns the stable `iterationValue`, or `none` when the type of
+the step still changes after `typeDeductionDepth` rounds (`isStable == false`) -/
+def recursionRounds (v : Visitor) (a : Ast) (idx : Nat) : Nat → Ty → M (Option Ty)
+  | 0, _ => M.pure none
   | n+1, it =>
     M.bind clearLocals fun _ =>
     M.bind (visitChildDecl v a 0 it) fun _ =>
     M.bind (childType v a idx) fun r =>
     M.bind (expectTy "ViRecursion" r) fun nt =>
-    if nt == it then M.pure it else recursionRounds v a idx n nt
+    if nt == it then M.pure (some it) else recursionRounds v a idx n nt
 
 def viRecursion (Γ : Ctx) (v : Visitor) (a : Ast) : M Unit :=
   M.bind startScope fun _ =>
@@ -525,8 +526,11 @@ def viRecursion (Γ : Ctx) (v : Visitor) (a : Ast) : M Unit :=
   | some true =>
     M.bind (expectTy "ViRecursion" itR) fun it0 =>
     M.bind (modifySt fun s => { s with noWarn := s.noWarn + 1 }) fun _ =>
-    M.bind (recursionRounds v a idx typeDeductionDepth it0) fun it =>
+    M.bind (recursionRounds v a idx typeDeductionDepth it0) fun stable =>
     M.bind (modifySt fun s => { s with noWarn := s.noWarn - 1 }) fun _ =>
+    match stable with
+    | none => M.bind (kidM a idx) fun k => errFail EID.typesNotEqual k.lo   -- the recursion has no type
+    | some it =>
     M.bind (if isFull then visitChild v a 2 else M.pure ()) fun _ =>
     M.bind (endScope a.lo) fun _ =>
     -- the result is the initial value when no step is made: its type takes part in the result type
